@@ -33,7 +33,7 @@ CREG, COK, CTO = 32, 33, 34   # executor variable slots of cond 0
 def phased(draw, ctx):
     topo, npools, nxs = draw(simple_topology(max_xs=3))
     lines = [draw(sched_line(ctx))] + topo
-    lines.append("mutex 0 kind=%s" % draw(st.sampled_from(["dyn", "static"])))
+    lines.append("mutex 0 kind=%s" % draw(st.sampled_from(["dyn", "static", "rec"])))
     lines.append("cond 0 kind=%s" % draw(st.sampled_from(["dyn", "static"])))
     w = draw(st.integers(1, 6))
     T = draw(st.sampled_from([0, 2, 3, 6, 6]))
@@ -139,7 +139,7 @@ def edge(draw, ctx):
     topo, npools, nxs = draw(simple_topology(max_xs=3))
     lines = [draw(sched_line(ctx, extra=" tick=%d" % draw(st.sampled_from([1, 1, 4])))),
              ] + topo
-    lines.append("mutex 0 kind=%s" % draw(st.sampled_from(["dyn", "static"])))
+    lines.append("mutex 0 kind=%s" % draw(st.sampled_from(["dyn", "static", "rec"])))
     lines.append("cond 0 kind=%s" % draw(st.sampled_from(["dyn", "static"])))
     w = draw(st.integers(2, 5))
     wi = draw(st.integers(0, w - 1))          # position of the timed waiter in the queue
